@@ -255,6 +255,26 @@ fn tasks_for(prop: &str, tier: &str, seed: u64) -> Vec<Task> {
         }
         "C04" => {
             let mut out = vec![];
+            for (ci, c) in ["secq256k1", "zorro", "curve25519"].iter().enumerate() {
+                if !thorough && ci != (seed as usize) % 3 {
+                    continue;
+                }
+                let c = c.to_string();
+                let stride = if thorough { 1 } else { 3 };
+                let replay = serde_json::json!({"kind": "c04bits", "stride": stride, "seed": seed});
+                out.push(Task {
+                    name: format!("C04:bitflips:{}", c),
+                    replay: replay.clone(),
+                    run: Box::new(move || {
+                        let checks = match c.as_str() {
+                            "secq256k1" => scen_c04::bitflip_native::<Secq>(seed, stride),
+                            "zorro" => scen_c04::bitflip_native::<Zorro>(seed, stride),
+                            _ => scen_c04::bitflip_native::<Ed>(seed, stride),
+                        };
+                        native_job("C04", "bitflips", &c, seed, checks, replay)
+                    }),
+                });
+            }
             for (k, case) in scen_c04::c04_cases(thorough).into_iter().enumerate() {
                 let cs: Vec<&str> = if thorough { curves.clone() } else { vec![["secq256k1", "zorro", "curve25519"][k % 3]] };
                 for c in cs {
@@ -533,7 +553,7 @@ fn main() {
                     println!("REPLAY {}", if any_wrong { "REPRODUCED" } else { "NOT-REPRODUCED" });
                     std::process::exit(if any_wrong { 1 } else { 0 });
                 }
-                Some(kind @ ("c10" | "c13" | "c15" | "c07" | "c06" | "c09" | "c05" | "c04" | "c03" | "c18" | "c17" | "c16" | "c08" | "c11" | "c12")) => {
+                Some(kind @ ("c10" | "c13" | "c15" | "c07" | "c06" | "c09" | "c05" | "c04" | "c03" | "c18" | "c17" | "c16" | "c08" | "c11" | "c12" | "c04bits")) => {
                     let seed = rp["seed"].as_u64().unwrap_or(0);
                     let mut any_wrong = false;
                     for (k, m) in [(0u64, model.clone()), (1, HashMap::new()), (2, HashMap::new())] {
@@ -548,6 +568,7 @@ fn main() {
                                 replay::diff_native::<Secq>(&shape, seed + k)
                             }
                             "c16" => scen_c16::enumerate_opt::<Secq>(rp["max1"].as_u64().unwrap() as usize, rp["max2"].as_u64().unwrap() as usize, seed + k, |s| Box::new(job::PlainVals::<ark_secq256k1::Fr>::new(HashMap::new(), s)), true).1,
+                            "c04bits" => scen_c04::bitflip_native::<Secq>(seed, rp["stride"].as_u64().unwrap_or(3) as usize),
                             "c08" => scen_native::c08_native::<Secq>(seed, rp["maxlen"].as_u64().unwrap_or(3) as usize),
                             "c11" => {
                                 if rp["curve"].as_str() == Some("curve25519") { scen_native::c11_native::<Ed>(seed, Some(ed_torsion())) } else { scen_native::c11_native::<Secq>(seed, None) }
